@@ -22,7 +22,7 @@ import (
 func init() { register("C11", checkC11) }
 
 func checkC11(c *core.Ctx) {
-	c.Explainf("C11 (decided clause: the discipline of the pending 'next record' attributes; faithfulness of a parser as a whole is behaviour and is NOT decided). R1: for the definition loop of ReadFile and the member loops of readEnum/readStruct/readMessage/readUnion, the loop-carried locals that hold a pending attribute (comment lines, opcode, readonly, flags; per-member comment, tags, deprecation) form a typestate {clear, maybe-set}; on every CFG path (go/cfg, with refinement on `if v`/`if v != 0` guards, iterated to a fixpoint over the loop) an iteration that completed a definition reaches the loop head with every pending attribute clear — an attribute annotates one definition and no other. R1b: an iteration that matched a token but completed no definition does not clear a pending opcode/readonly/flags/deprecation (the attribute would be lost before its definition). R2: every definition kind either consumes or rejects each of opcode and flags (kind x attribute matrix). R3: evaluateBitflagExpr instantiates the evaluator with the integer type of exactly the signedness and width it dispatches on, and covers the image of decodeIntegerType. R4: skipFollowingWhitespace skips every byte the token tree treats as insignificant. R5: whether a member is deprecated is recorded by a pure flag set in the clause that called readDeprecated, never derived from the message text (`[deprecated(\"\")]` is well formed). R6: the tokenizer uses no bufio primitive bounded by the buffer size (ReadSlice outside a loop on ErrBufferFull, ReadLine, Peek of more than a 16-byte constant, Scanner), decides nothing on (*bufio.Reader).Buffered, and what ReadSlice/Peek hand out is only looked at or copied, never appended onto or stored: comments and literals have no length limit (positive control: fixtures/limitedread). R7: in numberToken's chain of byte classes, for every letter a-f/A-F and every assignment of the boolean locals with the hex flag(s) set, the first condition that holds is the hex-digit arm's (finite decision table over the conditions, the package's one-line predicates inlined). R8: every loop of parse_expr.go that looks for the `)` closing a group also looks at `(` and keeps a depth count. R9: every table from spellings to token kinds holds only the format's reserved words (a spec-side list). R10: a table the tokenizer indexes with an input byte is indexed with the byte itself (not masked or reduced modulo a constant) and, if an array, has 256 entries (positive control: fixtures/bytetable). R11: a strings/bytes trimming call in the parser or tokenizer that names '\\n' names '\\r' too, or the function trims '\\r' elsewhere (positive control: fixtures/lineend). R12: a local slice emptied for re-use with v = v[:0] is never stored by reference (in a composite literal, a field, an element) — only copied (positive control: fixtures/reusedslice). R13: the text of a token that expectNext required to be a string literal reaches the File through strconv.Unquote, never through a Trim of the quote characters. NOT decided: token-to-field mapping, source order, layout independence beyond R4.")
+	c.Explainf("C11 (decided clause: the discipline of the pending 'next record' attributes; faithfulness of a parser as a whole is behaviour and is NOT decided). R1: for the definition loop of ReadFile and the member loops of readEnum/readStruct/readMessage/readUnion, the loop-carried locals that hold a pending attribute (comment lines, opcode, readonly, flags; per-member comment, tags, deprecation) form a typestate {clear, maybe-set}; on every CFG path (go/cfg, with refinement on `if v`/`if v != 0` guards, iterated to a fixpoint over the loop) an iteration that completed a definition reaches the loop head with every pending attribute clear — an attribute annotates one definition and no other. R1b: an iteration that matched a token but completed no definition does not clear a pending opcode/readonly/flags/deprecation (the attribute would be lost before its definition). R2: every definition kind either consumes or rejects each of opcode and flags (kind x attribute matrix). R3: evaluateBitflagExpr instantiates the evaluator with the integer type of exactly the signedness and width it dispatches on, and covers the image of decodeIntegerType. R4: skipFollowingWhitespace skips every byte the token tree treats as insignificant. R5: whether a member is deprecated is recorded by a pure flag set in the clause that called readDeprecated, never derived from the message text (`[deprecated(\"\")]` is well formed). R6: the tokenizer uses no bufio primitive bounded by the buffer size (ReadSlice outside a loop on ErrBufferFull, ReadLine, Peek of more than a 16-byte constant, Scanner), decides nothing on (*bufio.Reader).Buffered, and what ReadSlice/Peek hand out is only looked at or copied, never appended onto or stored: comments and literals have no length limit (positive control: fixtures/limitedread). R7: in numberToken's chain of byte classes, for every letter a-f/A-F and every assignment of the boolean locals with the hex flag(s) set, the first condition that holds is the hex-digit arm's (finite decision table over the conditions, the package's one-line predicates inlined). R8: every loop of parse_expr.go that looks for the `)` closing a group also looks at `(` and keeps a depth count. R9: every table from spellings to token kinds holds only the format's reserved words (a spec-side list). R10: a table the tokenizer indexes with an input byte is indexed with the byte itself (not masked or reduced modulo a constant) and, if an array, has 256 entries (positive control: fixtures/bytetable). R11: a strings/bytes trimming call in the parser or tokenizer that names '\\n' names '\\r' too, or the function trims '\\r' elsewhere (positive control: fixtures/lineend). R12: a local slice emptied for re-use with v = v[:0] is never stored by reference (in a composite literal, a field, an element) — only copied (positive control: fixtures/reusedslice). R13: the text of a token that expectNext required to be a string literal reaches the File through strconv.Unquote, never through a Trim of the quote characters. R7b: no local of numberToken initialised from the bytes already read ('7' or '-7') starts differently with a sign than without (evaluated for both entry shapes). R14: skipEndOfLineComments is called only where a member or const has just been completed (a `;` taken or the member stored earlier in the same statement list). NOT decided: token-to-field mapping, source order, layout independence beyond R4.")
 	p := loadRepo(c)
 	if p == nil {
 		return
@@ -53,6 +53,269 @@ func checkC11(c *core.Ctx) {
 	lineEndsAreTrimmedTogether(c, p)
 	scratchSlicesAreNotKept(c, p)
 	stringLiteralsAreUnquoted(c, p)
+	trailingCommentsAreSkippedOnlyAfterAMember(c, p)
+	numberStateIgnoresTheSign(c, p)
+}
+
+// numberStateIgnoresTheSign: R7b. numberToken is entered with the bytes that
+// selected it in the token tree: a digit, or '-' and a digit. What it then
+// accepts — in particular the hex marker after a leading 0 — must not depend
+// on the sign: every local of numberToken that is initialised from the entry
+// bytes has the same initial value for "0" as for "-0" (and for "7" as for
+// "-7"). A flag computed as len(concrete) == 1 && concrete[0] == '0' makes
+// `-0x10` an error where `0x10` is a number. The initialisers are evaluated
+// for the entry shapes (a small evaluator over len, indexing, comparisons and
+// boolean operators); anything else in an initialiser that mentions the entry
+// bytes is UNDECIDED.
+func numberStateIgnoresTheSign(c *core.Ctx, p *load.Prog) {
+	pkg := p.Bebop()
+	info := pkg.TypesInfo
+	fd := p.FuncDecl(pkg, "numberToken")
+	if fd == nil || fd.Type.Params == nil {
+		return // reported by R7
+	}
+	// the []byte parameter
+	var entry types.Object
+	for _, fl := range fd.Type.Params.List {
+		for _, nm := range fl.Names {
+			if o := info.Defs[nm]; o != nil && o.Type().String() == "[]byte" {
+				entry = o
+			}
+		}
+	}
+	if entry == nil {
+		c.Undecide("numberToken: the parameter holding the bytes already read was not found")
+		return
+	}
+	mentionsEntry := func(e ast.Expr) bool {
+		found := false
+		ast.Inspect(e, func(n ast.Node) bool {
+			if id, ok := n.(*ast.Ident); ok && info.ObjectOf(id) == entry {
+				found = true
+			}
+			return !found
+		})
+		return found
+	}
+	type val struct {
+		b      bool
+		n      int64
+		ok     bool
+		isBool bool
+	}
+	var eval func(e ast.Expr, in []byte) val
+	eval = func(e ast.Expr, in []byte) val {
+		e = ast.Unparen(e)
+		if tv := info.Types[e]; tv.Value != nil {
+			if k, ok := constInt(info, e); ok {
+				return val{n: int64(k), ok: true}
+			}
+			if s := tv.Value.ExactString(); s == "true" || s == "false" {
+				return val{b: s == "true", ok: true, isBool: true}
+			}
+		}
+		switch x := e.(type) {
+		case *ast.CallExpr:
+			if wire.Canon(x.Fun) == "len" && len(x.Args) == 1 {
+				if id, ok := ast.Unparen(x.Args[0]).(*ast.Ident); ok && info.ObjectOf(id) == entry {
+					return val{n: int64(len(in)), ok: true}
+				}
+			}
+		case *ast.IndexExpr:
+			if id, ok := ast.Unparen(x.X).(*ast.Ident); ok && info.ObjectOf(id) == entry {
+				// an index from the front addresses the sign or the digit
+				// depending on the shape: that is the dependence looked for;
+				// an index from the end (len-1) addresses the digit in both
+				iv := eval(x.Index, in)
+				if !iv.ok || iv.n < 0 || int(iv.n) >= len(in) {
+					return val{}
+				}
+				return val{n: int64(in[iv.n]), ok: true}
+			}
+		case *ast.UnaryExpr:
+			if x.Op == token.NOT {
+				v := eval(x.X, in)
+				if v.ok && v.isBool {
+					return val{b: !v.b, ok: true, isBool: true}
+				}
+			}
+		case *ast.BinaryExpr:
+			a, b := eval(x.X, in), eval(x.Y, in)
+			switch x.Op {
+			case token.LAND:
+				if a.ok && a.isBool && !a.b {
+					return val{b: false, ok: true, isBool: true}
+				}
+				if a.ok && b.ok && a.isBool && b.isBool {
+					return val{b: a.b && b.b, ok: true, isBool: true}
+				}
+			case token.LOR:
+				if a.ok && a.isBool && a.b {
+					return val{b: true, ok: true, isBool: true}
+				}
+				if a.ok && b.ok && a.isBool && b.isBool {
+					return val{b: a.b || b.b, ok: true, isBool: true}
+				}
+			case token.EQL, token.NEQ, token.LSS, token.LEQ, token.GTR, token.GEQ:
+				if a.ok && b.ok && !a.isBool && !b.isBool {
+					r := map[token.Token]bool{token.EQL: a.n == b.n, token.NEQ: a.n != b.n, token.LSS: a.n < b.n, token.LEQ: a.n <= b.n, token.GTR: a.n > b.n, token.GEQ: a.n >= b.n}[x.Op]
+					return val{b: r, ok: true, isBool: true}
+				}
+			case token.SUB, token.ADD:
+				if a.ok && b.ok && !a.isBool && !b.isBool {
+					if x.Op == token.SUB {
+						return val{n: a.n - b.n, ok: true}
+					}
+					return val{n: a.n + b.n, ok: true}
+				}
+			}
+		}
+		return val{}
+	}
+	n := 0
+	for _, st := range fd.Body.List {
+		as, ok := st.(*ast.AssignStmt)
+		if !ok || as.Tok != token.DEFINE || len(as.Lhs) != len(as.Rhs) {
+			continue
+		}
+		for i, rhs := range as.Rhs {
+			if !mentionsEntry(rhs) {
+				continue
+			}
+			// the token built from the entry bytes is not state of the scan
+			if _, isLit := ast.Unparen(rhs).(*ast.CompositeLit); isLit {
+				continue
+			}
+			n++
+			name := wire.Canon(as.Lhs[i])
+			bad, unsure := "", false
+			for _, d := range []byte{'0', '7'} {
+				plain, signed := eval(rhs, []byte{d}), eval(rhs, []byte{'-', d})
+				if !plain.ok || !signed.ok {
+					unsure = true
+					continue
+				}
+				if plain != signed {
+					bad = fmt.Sprintf("after %q it starts as %v, after %q as %v", string([]byte{d}), showVal(plain.isBool, plain.b, plain.n), string([]byte{'-', d}), showVal(signed.isBool, signed.b, signed.n))
+				}
+			}
+			switch {
+			case bad != "":
+				c.Check("R7b", "numberToken's "+name+" does not depend on the sign of the literal", p.Pos(as.Pos()), false,
+					name+" := "+wire.Canon(rhs)+" — "+bad+": what follows a negative literal's first digit (a hex marker, a decimal point) is accepted or refused differently from the same literal without the sign")
+			case unsure:
+				c.Undecide("C11/R7b: numberToken's %s is initialised from the bytes already read by %s, which the rule cannot evaluate", name, wire.Canon(rhs))
+			default:
+				c.Check("R7b", "numberToken's "+name+" does not depend on the sign of the literal", p.Pos(as.Pos()), true, "")
+			}
+		}
+	}
+	c.Check("R7b", "numberToken's state does not depend on the sign of the literal (scan complete)", p.Pos(fd.Pos()), true, "")
+	c.Count("number_state_from_entry_bytes", n)
+}
+
+func showVal(isBool, b bool, n int64) string {
+	if isBool {
+		return fmt.Sprint(b)
+	}
+	return fmt.Sprint(n)
+}
+
+// trailingCommentsAreSkippedOnlyAfterAMember: R14. skipEndOfLineComments
+// throws away the comment that follows on the same line — right after a member
+// or a const was completed ("comments at the end of lines after fields are not
+// comments for the next field"), wrong anywhere else: after an attribute the
+// comment on the same line (and a //[tag(...)] in it) belongs to the member
+// that follows. Every call of it is therefore preceded, in its own statement
+// list, by the end of a member: an expectNext/expectAnyOfNext that names
+// tokenKindSemicolon, or a store of the member into the definition being built.
+func trailingCommentsAreSkippedOnlyAfterAMember(c *core.Ctx, p *load.Prog) {
+	pkg := p.Bebop()
+	info := pkg.TypesInfo
+	target := p.FuncDecl(pkg, "skipEndOfLineComments")
+	if target == nil {
+		c.Undecide("skipEndOfLineComments not found: how trailing comments are told from doc comments is not recognised")
+		return
+	}
+	tobj := info.Defs[target.Name]
+	endsMember := func(st ast.Stmt) bool {
+		found := false
+		ast.Inspect(st, func(n ast.Node) bool {
+			switch x := n.(type) {
+			case *ast.CallExpr:
+				fn := wire.Canon(x.Fun)
+				if fn == "expectNext" || fn == "expectAnyOfNext" {
+					for _, a := range x.Args {
+						if wire.Canon(a) == "tokenKindSemicolon" {
+							found = true
+						}
+					}
+				}
+			case *ast.AssignStmt:
+				for _, l := range x.Lhs {
+					// st.Fields = append(st.Fields, Field{…}) / msg.Fields[i] = Field{…}
+					root := ast.Unparen(l)
+					if ix, ok := root.(*ast.IndexExpr); ok {
+						root = ast.Unparen(ix.X)
+					}
+					if sel, ok := root.(*ast.SelectorExpr); ok && (sel.Sel.Name == "Fields" || sel.Sel.Name == "Options") {
+						found = true
+					}
+				}
+			}
+			return !found
+		})
+		return found
+	}
+	n := 0
+	for _, fd := range funcsOfFiles(p, pkg, "parse.go", "parse_expr.go") {
+		if fd == target {
+			continue
+		}
+		var visit func(list []ast.Stmt)
+		visit = func(list []ast.Stmt) {
+			for i, st := range list {
+				// nested lists first
+				ast.Inspect(st, func(k ast.Node) bool {
+					switch y := k.(type) {
+					case *ast.BlockStmt:
+						if ast.Node(y) != ast.Node(st) {
+							visit(y.List)
+							return false
+						}
+					case *ast.CaseClause:
+						visit(y.Body)
+						return false
+					}
+					return true
+				})
+				es, ok := st.(*ast.ExprStmt)
+				if !ok {
+					continue
+				}
+				call, ok := es.X.(*ast.CallExpr)
+				if !ok {
+					continue
+				}
+				if cal := load.Callee(info, call); cal == nil || types.Object(cal) != tobj {
+					continue
+				}
+				n++
+				ok2 := false
+				for j := i - 1; j >= 0; j-- {
+					if endsMember(list[j]) {
+						ok2 = true
+						break
+					}
+				}
+				c.Check("R14", fmt.Sprintf("%s skips a trailing comment only after a member is complete (#%d)", fd.Name.Name, n), p.Pos(call.Pos()), ok2,
+					"skipEndOfLineComments is called where no member or const has just been completed (no `;` taken and nothing stored before it in this statement list): the comment on the rest of the line — and a //[tag(...)] in it — belongs to what follows and is thrown away")
+			}
+		}
+		visit(fd.Body.List)
+	}
+	c.Count("trailing_comment_skips", n)
+	c.Floor("trailing_comment_skips", 2)
 }
 
 // scanReusedSlices: R12. A local slice that is emptied for re-use with
